@@ -181,8 +181,8 @@ def run(chk, tier):
     # ---- B2: real circuits
     if not thorough:
         rnd.shuffle(p1)
-        p1 = sorted(p1[:500], key=lambda p: json.dumps(p["prog"], sort_keys=True))
-        psim = psim[:150]
+        p1 = sorted(p1[:350], key=lambda p: json.dumps(p["prog"], sort_keys=True))
+        psim = psim[:100]
     rows = make_scenarios(p1, cfgs, classes, rnd, "a")
     rows += make_scenarios(psim, cfgs, classes, rnd, "s")
     rows += make_scenarios(p2, cfgs, classes, rnd, "b")
